@@ -5,6 +5,7 @@ below such a node.  Generalises `exec_correct` (Lemmas/Exec.lean); also shows th
 payload.
 -/
 import DafRel.Lemmas.Exec
+import DafRel.Lemmas.Payload
 
 namespace DafRel
 
@@ -55,6 +56,27 @@ theorem IterOKs.of_iterOK (s : ExecState) : (r : Rel) → r.IterOK → r.IterOKs
   | .mat _ _ t, h => Or.inr (IterOKs.of_iterOK s t h)
   | .transfer _ _ t, h => Or.inr ⟨IterOKs.of_iterOK s t h.1, h.2⟩
   | .select _ _ _ _ _ _ _ _ t, h => IterOKs.of_iterOK s t h
+
+/-- Write-once: every payload of `s` is still there in `s'`, the same object. -/
+def PayKeep (s s' : ExecState) : Prop := ∀ o p, s.payload o = some p → s'.payload o = some p
+
+theorem PayKeep.refl (s : ExecState) : PayKeep s s := fun _ _ h => h
+theorem PayKeep.trans {a b c : ExecState} (h1 : PayKeep a b) (h2 : PayKeep b c) : PayKeep a c :=
+  fun o p h => h2 o p (h1 o p h)
+theorem PayKeep.of_payloads_eq {s s' : ExecState} (h : s'.payloads = s.payloads) : PayKeep s s' := by
+  intro o p ho; simpa [ExecState.payload, h] using ho
+theorem PayKeep.cons (s : ExecState) (oid : Nat) (it : Iterable) (ev : List Nat) (hn : s.payload oid = none) :
+    PayKeep s { s with payloads := (oid, it) :: s.payloads, evals := ev } := by
+  intro o p ho
+  have hne : ¬ oid = o := by
+    intro h; rw [h] at hn; rw [hn] at ho; cases ho
+  have hb : (oid == o) = false := by simpa using hne
+  simpa [ExecState.payload, List.find?_cons, hb] using ho
+theorem PayKeep.mono {s s' : ExecState} (h : PayKeep s s') : PayMono s s' := by
+  intro o ho
+  cases hp : s.payload o with
+  | none => simp [hp] at ho
+  | some p => simp [h o p hp]
 
 /-- Payloads present in `s'` were present in `s` or sit on a Materialization of `r`. -/
 def PayNew (r : Rel) (s s' : ExecState) : Prop :=
